@@ -169,3 +169,501 @@ class check_cons(Contract):
             return {'false_means_some_constraint_has_no_satisfied_option': z3.Exists([a], z3.And(a >= 0, a < n, z3.ForAll(
                 [b], z3.Implies(z3.And(b >= 0, b < NOPT(a)), z3.Not(SAT(a, b))))))}
         return {'returns_a_boolean': False}
+
+
+# ----------------------------------------------------------------------------- Checker.check (C12)
+from ndn.encoding.name import Name, Component            # noqa: E402
+
+NP = z3.Function('NPKT', INT)                            # number of matches of the packet name
+PN = z3.Function('PKT_NODE', INT, INT)                   # node reached by packet match a
+NK = z3.Function('NKEY', INT, INT)                       # number of matches of the key name under the bindings of match a
+KN = z3.Function('KEY_NODE', INT, INT, INT)              # node reached by key match b under packet match a
+INSC = z3.Function('IN_SIGN_CONS', INT, INT, B)          # node k is listed in sign_cons of node p
+
+
+def SIGNS(a, b):
+    return INSC(PN(a), KN(a, b))
+
+
+class LName:
+    """a name handed to check(): whether it is empty and whether it ends with an implicit digest are symbolic"""
+
+    def __init__(self, run, label, stripped_of=None):
+        self.run, self.label, self.stripped_of = run, label, stripped_of
+        if stripped_of is None:
+            self.empty = run.input_bool(f'{label}_empty')
+            self.last_type = run.input_int(f'{label}_last_type')
+
+    def truth(self, it):
+        if self.stripped_of is not None:
+            raise Unsupported('truth of a stripped name')
+        return Not(self.empty)
+
+    def getitem(self, it, idx, node):
+        if idx != -1 or self.stripped_of is not None:
+            raise Unsupported('only name[-1] is modelled')
+        return LastComp(self)
+
+    def getslice(self, it, lo, hi, node):
+        if lo is None and hi == -1 and self.stripped_of is None:
+            return LName(self.run, self.label + '[:-1]', stripped_of=self)
+        raise Unsupported('only name[:-1] is modelled')
+
+
+class LastComp:
+    def __init__(self, name):
+        self.name = name
+
+
+@contract
+class normalize_lname(Contract):
+    fn = Name.normalize
+    assumed = True
+
+    def use_contract_at(c, it, args, kwargs):
+        return isinstance(args[0], LName)
+
+    def result(c, cx, name):
+        return name
+
+
+@contract
+class get_type_lname(Contract):
+    fn = Component.get_type
+    assumed = True
+
+    def use_contract_at(c, it, args, kwargs):
+        return isinstance(args[0], LastComp)
+
+    def result(c, cx, component):
+        return component.name.last_type
+
+
+class CtxTok:
+    def __init__(self, a):
+        self.a = a
+
+
+class SignCons:
+    def __init__(self, p):
+        self.p = p
+
+    def contains(self, it, item, node):
+        return INSC(zint(self.p), zint(item))
+
+
+class Nodes:
+    def getitem(self, it, idx, node):
+        return AbsObj('node', dict(sign_cons=SignCons(idx)))
+
+
+@contract
+class match_summary(Contract):
+    """ASSUMED interface of the matcher inside check(): _match(name, bindings) enumerates (node, bindings) pairs; its own
+    correctness (property C11) is decided by the bounded stand-in"""
+    fn = ck.Checker._match
+    assumed = True
+
+    def use_contract_at(c, it, args, kwargs):
+        return isinstance(args[1], LName)
+
+    def result(c, cx, self, name, context):
+        run = cx.run
+        calls = run.ghost.setdefault('match_calls', [])
+        calls.append((name, context))
+        if isinstance(context, dict):                       # the packet name, matched under no bindings
+            if context != {}:
+                raise Unsupported('packet match under bindings')
+            run.assume(NP() >= 0)
+            s = AbsSeq(run, 'pkt_matches', lambda a: (PN(a), CtxTok(a)), NP())
+            s.role = 'pkt'
+            return s
+        a = context.a
+        run.assume(NK(a) >= 0)
+        s = AbsSeq(run, 'key_matches', lambda b: (KN(a, b), CtxTok(('key', a, b))), NK(a))
+        s.role, s.a = 'key', a
+        return s
+
+
+def _chk_outer_inv(it, env, g):
+    i = zint(g['i'])
+    a, b = z3.Int('a!co'), z3.Int('b!co')
+    return {'no_earlier_packet_match_has_a_signing_key_match': z3.ForAll([a, b], z3.Implies(
+        z3.And(a >= 0, a < i, b >= 0, b < NK(a)), z3.Not(SIGNS(a, b))))}
+
+
+def _chk_inner_inv(it, env, g):
+    if getattr(g['seq'], 'role', None) != 'key':
+        return {'key_name_matched_under_the_bindings_of_the_packet_match': False}
+    a = g['seq'].a
+    j = zint(g['i'])
+    b = z3.Int('b!ci')
+    return {'no_earlier_key_match_signs': z3.ForAll([b], z3.Implies(z3.And(b >= 0, b < j), z3.Not(SIGNS(a, b))))}
+
+
+@contract
+class check(Contract):
+    fn = ck.Checker.check
+    props = ('C12',)
+    doc = ('Checker.check(pkt, key), for ANY number of matches: True iff some match of the packet name and some match of the key '
+           'name UNDER THE BINDINGS OF THAT PACKET MATCH reach nodes p, k with k listed in sign_cons(p); False iff there is no such '
+           'pair.  Both names are normalised and lose a trailing implicit-digest component (and only that) before matching. The '
+           'matcher itself is an assumed interface here')
+    raises = {}
+    loops = {1: LoopSpec(_chk_outer_inv), 2: LoopSpec(_chk_inner_inv)}
+
+    def setup(self, cx):
+        run = cx.run
+        self_ = SymObj(ck.Checker, dict(model=AbsObj('model', dict(nodes=Nodes()))))
+        return dict(self=self_, pkt_name=LName(run, 'pkt'), key_name=LName(run, 'key'))
+
+    def post(c, cx, result, self, pkt_name, key_name):
+        run = cx.run
+        a, b = z3.Int('a!p'), z3.Int('b!p')
+        out = {}
+        calls = run.ghost.get('match_calls', [])
+
+        def stripped_right(used, given):
+            digest = And(Not(given.empty), given.last_type == Component.TYPE_IMPLICIT_SHA256)
+            return And(Implies(digest, used.stripped_of is given), Implies(Not(digest), used is given))
+        if calls:
+            out['packet_name_matched_without_trailing_digest'] = stripped_right(calls[0][0], pkt_name)
+            out['key_matches_use_the_bindings_of_the_packet_match'] = all(isinstance(cx_, CtxTok) for _, cx_ in calls[1:]) and \
+                isinstance(calls[0][1], dict)
+            for nm, _ in calls[1:]:
+                out['key_name_matched_without_trailing_digest'] = stripped_right(nm, key_name)
+        if result is True:
+            gs = cx.it.top_locals.get('__active_loop_ghosts__', {})
+            if 1 not in gs or 2 not in gs:
+                return {'true_only_from_inside_both_loops': False}
+            ia, ib = zint(gs[1]['i']), zint(gs[2]['i'])
+            out['true_means_a_signing_pair_exists'] = And(ia >= 0, ia < NP(), ib >= 0, ib < NK(ia), SIGNS(ia, ib))
+        elif result is False:
+            out['false_means_no_signing_pair_exists'] = z3.ForAll([a, b], z3.Implies(
+                z3.And(a >= 0, a < NP(), b >= 0, b < NK(a)), z3.Not(SIGNS(a, b))))
+        else:
+            out['returns_a_boolean'] = False
+        return out
+
+
+# ----------------------------------------------------------------------------- the loader's sanity rules (C13): dfs
+NNODES = z3.Int('NNODES')
+NV, NPE, NSC = z3.Int('NV'), z3.Int('NPE'), z3.Int('NSC')
+VDN = z3.Function('VE_DEST_NONE', INT, B)
+VD = z3.Function('VE_DEST', INT, INT)
+VHV = z3.Function('VE_HAS_VALUE', INT, B)
+PDN = z3.Function('PE_DEST_NONE', INT, B)
+PD = z3.Function('PE_DEST', INT, INT)
+PTN = z3.Function('PE_TAG_NONE', INT, B)
+NCS = z3.Function('PE_NCONS', INT, INT)
+NOP = z3.Function('CONS_NOPT', INT, INT, INT)
+HV = z3.Function('OPT_HAS_VALUE', INT, INT, INT, B)
+HT = z3.Function('OPT_HAS_TAG', INT, INT, INT, B)
+HF = z3.Function('OPT_HAS_FN', INT, INT, INT, B)
+FID = z3.Function('OPT_FN_HAS_ID', INT, INT, INT, B)
+SC = z3.Function('SIGN_CONS', INT, INT)
+SUBOK = z3.Function('SUBTREE_OK', INT, INT, B)            # dfs(dest, parent) returned normally
+
+
+def _b2i(t):
+    return z3.If(t, 1, 0)
+
+
+def OPT_OK(e, s, o):
+    return z3.And(_b2i(HV(e, s, o)) + _b2i(HT(e, s, o)) + _b2i(HF(e, s, o)) == 1, z3.Implies(HF(e, s, o), FID(e, s, o)))
+
+
+class Truthy:
+    def __init__(self, t):
+        self.t = t
+
+    def truth(self, it):
+        return self.t
+
+
+def _opt_attr(it, none_when, value):
+    """None on the paths where `none_when` holds, else `value`"""
+    return None if it.run.branch(none_when, 'field.absent') else value
+
+
+def _mk_vedge(e):
+    return AbsObj(f've[{e}]', dict(dest=lambda it: _opt_attr(it, VDN(e), VD(e)), value=Truthy(VHV(e))))
+
+
+def _mk_option(e, s, o):
+    fn = AbsObj('fn', dict(fn_id=Truthy(FID(e, s, o))))
+    return AbsObj(f'opt[{e},{s},{o}]', dict(value=Truthy(HV(e, s, o)),
+                                            tag=lambda it: _opt_attr(it, z3.Not(HT(e, s, o)), z3.IntVal(0)),
+                                            fn=lambda it: _opt_attr(it, z3.Not(HF(e, s, o)), fn)))
+
+
+def _mk_pedge(run, e):
+    def cons_sets(it):
+        run.assume(NCS(e) >= 0)
+
+        def mk_cons(s):
+            def options(it_):
+                run.assume(NOP(e, s) >= 0)
+                sq = AbsSeq(run, f'options[{e},{s}]', lambda o: _mk_option(e, s, o), NOP(e, s))
+                sq.e, sq.s = e, s
+                return sq
+            return AbsObj(f'cons[{e},{s}]', dict(options=options))
+        sq = AbsSeq(run, f'cons_sets[{e}]', mk_cons, NCS(e))
+        sq.e = e
+        return sq
+    return AbsObj(f'pe[{e}]', dict(dest=lambda it: _opt_attr(it, PDN(e), PD(e)), tag=lambda it: _opt_attr(it, PTN(e), z3.IntVal(0)),
+                                   cons_sets=cons_sets))
+
+
+class AdjList:
+    def __init__(self):
+        self.appended = []
+
+    def getitem(self, it, idx, node):
+        owner = self
+
+        class _L:
+            def getattr_(self_, it_, name, node_):
+                if name == 'append':
+                    return _M(lambda it__, v: owner.appended.append((idx, v)))
+                raise Unsupported(f'list.{name}')
+        return _L()
+
+
+class GhostSet:
+    def __init__(self):
+        self.added = []
+
+    def getattr_(self, it, name, node):
+        if name == 'add':
+            return _M(lambda it_, v: self.added.append(v))
+        raise Unsupported(f'set.{name}')
+
+
+def _q(*names):
+    return [z3.Int(n) for n in names]
+
+
+def _ve_rule(e, cur):
+    return z3.And(z3.Not(VDN(e)), VHV(e), SUBOK(VD(e), cur))
+
+
+def _pe_rule(e, cur):
+    s, o = _q('s!r', 'o!r')
+    return z3.And(z3.Not(PDN(e)), z3.Not(PTN(e)), SUBOK(PD(e), cur),
+                  z3.ForAll([s, o], z3.Implies(z3.And(s >= 0, s < NCS(e), o >= 0, o < NOP(e, s)), OPT_OK(e, s, o))))
+
+
+def _dfs_cur(it):
+    return zint(it.top_locals['cur'])
+
+
+def _inv_ve(it, env, g):
+    e, = _q('e!v')
+    return {'earlier_value_edges_well_formed_and_subtrees_checked': z3.ForAll([e], z3.Implies(z3.And(e >= 0, e < zint(g['i'])), _ve_rule(e, _dfs_cur(it))))}
+
+
+def _inv_pe(it, env, g):
+    e, = _q('e!p')
+    return {'earlier_pattern_edges_well_formed_and_subtrees_checked': z3.ForAll([e], z3.Implies(z3.And(e >= 0, e < zint(g['i'])), _pe_rule(e, _dfs_cur(it))))}
+
+
+def _inv_cons(it, env, g):
+    e = g['seq'].e
+    s, o = _q('s!c', 'o!c')
+    return {'earlier_constraint_sets_well_formed': z3.ForAll([s, o], z3.Implies(
+        z3.And(s >= 0, s < zint(g['i']), o >= 0, o < NOP(e, s)), OPT_OK(e, s, o)))}
+
+
+def _inv_opt(it, env, g):
+    e, s = g['seq'].e, g['seq'].s
+    o, = _q('o!o')
+    return {'earlier_options_well_formed': z3.ForAll([o], z3.Implies(z3.And(o >= 0, o < zint(g['i'])), OPT_OK(e, s, o)))}
+
+
+def _inv_sc(it, env, g):
+    k, = _q('k!s')
+    return {'earlier_signers_exist': z3.ForAll([k], z3.Implies(z3.And(k >= 0, k < zint(g['i'])), z3.And(SC(k) < NNODES)))}
+
+
+def _step_sc(it, pre, env, g):
+    """every iteration of the signer loop records this signer for the cycle check (adj_lst) and the roots of trust (in_deg_nodes)"""
+    d = it.run.ghost['dfs']
+    k = simp(zint(g['i']) - 1)
+    adj, indeg = d['adj'].appended, d['indeg'].added
+    cur = _dfs_cur(it)
+    return {'signer_recorded_as_edge_of_the_signing_graph': len(adj) == 1 and And(Eq(zint(adj[0][0]), cur), Eq(zint(adj[0][1]), SC(k))),
+            'signer_recorded_as_signing_node': len(indeg) == 1 and Eq(zint(indeg[0]), SC(k))}
+
+
+@contract
+class loader_dfs(Contract):
+    fn = ck.Checker._sanity_check
+    nested = 'dfs'
+    props = ('C13',)
+    doc = ('the loader\'s dfs(cur, par), for ANY number of edges, constraint sets, options and signers: it returns normally only if node '
+           'cur exists, carries id cur and parent par, every value edge has a destination and a value, every pattern edge a '
+           'destination and a tag, every constraint option exactly one of value / tag / function (a function with an id), every '
+           'signer id names an existing node, and the same holds for the subtree under every edge (by the recursive calls); every '
+           'other model raises LvsModelError and nothing else; every signer is recorded for the cycle check and the roots of trust')
+    raises = {ck.LvsModelError: lambda cx, **p: True}
+
+    def setup(self, cx):
+        run = cx.run
+        cur = run.input_int('cur')
+        run.assume(z3.And(cur >= 0, NNODES >= 0, NV >= 0, NPE >= 0, NSC >= 0))
+        pk = run.choose([('root', True), ('child', True)], 'par')
+        par = None if pk == 'root' else run.input_int('par')
+        ik = run.choose([('id', True), ('id=None', True)], 'node.id')
+        nid = run.input_int('node_id') if ik == 'id' else None
+        qk = run.choose([('parent', True), ('parent=None', True)], 'node.parent')
+        npar = run.input_int('node_parent') if qk == 'parent' else None
+        node = AbsObj('node', dict(id=nid, parent=npar,
+                                   v_edges=AbsSeq(run, 'v_edges', _mk_vedge, NV),
+                                   p_edges=AbsSeq(run, 'p_edges', lambda e: _mk_pedge(run, e), NPE),
+                                   sign_cons=AbsSeq(run, 'sign_cons', lambda k: SC(k), NSC)))
+        nodes = AbsSeq(run, 'nodes', lambda j: node, NNODES)
+        self_ = SymObj(ck.Checker, dict(model=AbsObj('model', dict(nodes=nodes)), _model_fns=GhostSet()))
+        adj, indeg = AdjList(), GhostSet()
+        run.ghost['dfs'] = dict(self=self_, adj=adj, indeg=indeg, nid=nid, npar=npar)
+        return dict(cur=cur, par=par)
+
+    def closure(self, cx):
+        g = cx.run.ghost['dfs']
+        return dict(self=g['self'], adj_lst=g['adj'], in_deg_nodes=g['indeg'])
+
+    loops = {1: LoopSpec(_inv_ve), 2: LoopSpec(_inv_pe), 3: LoopSpec(_inv_cons), 4: LoopSpec(_inv_opt), 5: LoopSpec(_inv_sc, step=_step_sc)}
+
+    def post(c, cx, result, cur, par):
+        g = cx.run.ghost['dfs']
+        e, k = _q('e!q', 'k!q')
+        nid, npar = g['nid'], g['npar']
+        same_parent = (npar is None and par is None) or (npar is not None and par is not None and Eq(zint(npar), zint(par)))
+        return {'node_exists': zint(cur) < NNODES,
+                'node_carries_its_own_id': nid is not None and Eq(zint(nid), zint(cur)),
+                'parent_link_is_the_edge_it_was_reached_by': same_parent,
+                'value_edges_well_formed_and_subtrees_checked': z3.ForAll([e], z3.Implies(z3.And(e >= 0, e < NV), _ve_rule(e, zint(cur)))),
+                'pattern_edges_and_their_constraints_well_formed': z3.ForAll([e], z3.Implies(z3.And(e >= 0, e < NPE), _pe_rule(e, zint(cur)))),
+                'every_signer_exists': z3.ForAll([k], z3.Implies(z3.And(k >= 0, k < NSC), SC(k) < NNODES))}
+
+    def post_assumed(c, cx, result, cur, par):
+        return {'subtree_ok': SUBOK(zint(cur), zint(par) if par is not None else z3.IntVal(-1))}
+
+    def result(c, cx, cur, par):
+        return None
+
+
+# ----------------------------------------------------------------------------- Checker._sanity_check (C13)
+class NodesSeq(AbsSeq):
+    """model.nodes in _sanity_check: `{n.id: [] for n in nodes}` builds the (abstract) adjacency list"""
+
+    def comp_(self, it, node, fr):
+        import ast as _ast
+        if not isinstance(node, _ast.DictComp):
+            raise Unsupported('comprehension over the node list other than the adjacency list')
+        a = AdjList()
+        a.of_nodes = self
+        it.run.ghost['sc.adj'] = a
+        return a
+
+
+def _adj_getattr(self, it, name, node):
+    if name == 'keys':
+        return _M(lambda it_: ('keys-of', self))
+    raise Unsupported(f'adjacency list .{name}')
+
+
+AdjList.getattr_ = _adj_getattr
+
+
+class InDeg(GhostSet):
+    def comp_(self, it, node, fr):
+        it.run.ghost['sc.trust_roots_built'] = True
+        return Opaque('trust_roots', 'signing nodes without signers')
+
+
+@contract
+class top_order_assumed(Contract):
+    """ASSUMED (compiler.top_order is a separate function): raises on a cyclic signing relation"""
+    fn = top_order
+    assumed = True
+    raises = {Exception: lambda cx, **p: True}
+
+    def use_contract_at(c, it, args, kwargs):
+        return isinstance(args[1], AdjList)
+
+    def result(c, cx, nodes, graph):
+        cx.run.ghost['sc.top_order'] = (nodes, graph)
+        return []
+
+
+def _set_model():
+    from pyvc import models
+    old = models.BUILTIN_MODELS.get(set)
+
+    def m_set(it, args, kwargs, node):
+        if args and isinstance(args[0], tuple) and len(args[0]) == 2 and args[0][0] == 'keys-of':
+            return ('node-ids', args[0][1])
+        if not args:
+            g = it.run.ghost.get('sc.sets')
+            if g is not None:
+                s = InDeg()
+                g.append(s)
+                return s
+            return set()
+        if old is not None:
+            return old(it, args, kwargs, node)
+        return set(*args)
+    models.BUILTIN_MODELS[set] = m_set
+
+
+_set_model()
+
+
+@contract
+class sanity_check(Contract):
+    fn = ck.Checker._sanity_check
+    props = ('C13',)
+    doc = ('Checker._sanity_check returns normally only for a model with a supported version and a start node, whose whole tree passed '
+           'dfs(start, None) (see the dfs contract) and whose signing relation passed the cycle check over ALL node ids; the roots of '
+           'trust are computed from the recorded signing nodes.  A missing / unsupported version or a missing start node is an '
+           'LvsModelError')
+    raises = {ck.LvsModelError: lambda cx, **p: True, Exception: lambda cx, **p: True}
+
+    def setup(self, cx):
+        run = cx.run
+        vk = run.choose([('version', True), ('version=None', True)], 'version')
+        version = run.input_int('version') if vk == 'version' else None
+        sk = run.choose([('start', True), ('start=None', True)], 'start_id')
+        start = run.input_int('start_id') if sk == 'start' else None
+        if start is not None:
+            run.assume(start >= 0)
+        nodes = NodesSeq(run, 'nodes', lambda j: AbsObj('node', {}), NNODES)
+        run.assume(NNODES >= 0)
+        run.ghost['sc.sets'] = []
+        run.ghost['sc'] = dict(version=version, start=start, nodes=nodes)
+        return dict(self=SymObj(ck.Checker, dict(model=AbsObj('model', dict(version=version, start_id=start, nodes=nodes)))))
+
+    def post(c, cx, result, self):
+        g = cx.run.ghost
+        d = g['sc']
+        v, st = d['version'], d['start']
+        out = {'version_supported': v is not None and And(zint(v) >= bny.MIN_SUPPORTED_VERSION, zint(v) <= bny.VERSION),
+               'start_node_present': st is not None}
+        if st is not None:
+            out['whole_tree_checked_from_the_start_node_as_root'] = SUBOK(zint(st), z3.IntVal(-1))
+        to = g.get('sc.top_order')
+        adj = g.get('sc.adj')
+        out['signing_relation_checked_for_cycles_over_all_nodes'] = to is not None and adj is not None and to[1] is adj and \
+            to[0] == ('node-ids', adj) and adj.of_nodes is d['nodes']
+        out['roots_of_trust_from_recorded_signing_nodes'] = g.get('sc.trust_roots_built') is True and \
+            isinstance(self.d.get('_trust_roots'), Opaque) and self.d['_trust_roots'].typ == 'trust_roots'
+        return out
+
+    def xpost(c, cx, exc, self):
+        d = cx.run.ghost['sc']
+        v, st = d['version'], d['start']
+        if exc.cls is ck.LvsModelError:
+            return {}
+        # any other exception can only come out of the cycle check
+        return {'other_errors_only_from_the_cycle_check': v is not None and st is not None}
